@@ -251,6 +251,7 @@ type fakeAPI struct {
 	listFaults       map[int]listFault
 	listErr          listErrFlavour // what a lfError fault returns
 	blankListRV      bool           // lists are rendered with an empty collection resourceVersion
+	connErr          error          // what a failing Watch() call returns (nil: errWatchInjected)
 	listLatency      func(k int) time.Duration
 	beforeListReturn func(k int) // called (without the lock) just before a successful List returns
 	nlists           int
@@ -476,7 +477,7 @@ func (a *fakeAPI) Watch(ctx context.Context, o metav1.ListOptions) (watch.Interf
 	defer a.mu.Unlock()
 	if a.watchDead {
 		wc.failed = true
-		return nil, errWatchInjected
+		return nil, a.watchErr()
 	}
 	if a.watchHang {
 		// the connection attempt hangs (a black-holed API server): the call returns when, and only
@@ -492,7 +493,7 @@ func (a *fakeAPI) Watch(ctx context.Context, o metav1.ListOptions) (watch.Interf
 	if a.connErrs > 0 {
 		a.connErrs--
 		wc.failed = true
-		return nil, errWatchInjected
+		return nil, a.watchErr()
 	}
 	from, _ := strconv.Atoi(o.ResourceVersion)
 	s := &wsession{api: a, id: len(a.sessions), fromRV: from, ch: make(chan watch.Event, 16), stopch: make(chan struct{}), wake: make(chan struct{}, 1), plan: noPlan()}
@@ -728,6 +729,28 @@ func (a *fakeAPI) watchCount() int {
 	a.mu.Lock()
 	defer a.mu.Unlock()
 	return len(a.watchCalls)
+}
+
+// watchErr: the error of a failing Watch() call (called with a.mu held).
+func (a *fakeAPI) watchErr() error {
+	if a.connErr != nil {
+		return a.connErr
+	}
+	return errWatchInjected
+}
+
+// watchErrFlavours: what a failing Watch() call may return; like a failing
+// List (listErrFlavours) these are all "the watch could not be established",
+// and none of them may stop the controller (C14).
+var watchErrFlavours = []listErrFlavour{
+	{"plain", errWatchInjected},
+	{"status 410 expired", apierrors.NewResourceExpired("too old resource version: 5 (1207)")},
+	{"status 410 gone", apierrors.NewGone("injected")},
+	{"status 504 timeout", apierrors.NewTimeoutError("injected", 1)},
+	{"status 401 unauthorized", apierrors.NewUnauthorized("injected")},
+	{"context.DeadlineExceeded", context.DeadlineExceeded},
+	{"io.EOF", io.EOF},
+	{"temporary net timeout", tempNetErr{}},
 }
 
 func (a *fakeAPI) hungCount() int {
